@@ -11,5 +11,5 @@ PY
 [ $? -eq 0 ] || exit 5
 (cd /repo && go build ./... ) || { git -C /repo checkout -- .; echo "MUTANT DOES NOT BUILD"; exit 3; }
 (cd /repo && go test -mod=mod -vet=off -count=1 ./... 2>&1 | grep -c '^ok' | sed 's/^/suite ok packages: /')
-cd /verif && ./bin/simrun check $prop --tier ${TIER:-quick} 2>&1 | grep -E "VIOLATION|signature|OK property|simrun:" | cut -c1-260 | head -8
+cd /verif && VERIF_OUT=/tmp/mutout ./bin/simrun check $prop --tier ${TIER:-quick} 2>&1 | grep -E "VIOLATION|signature|OK property|simrun:" | cut -c1-260 | head -8
 git -C /repo checkout -- .
